@@ -9,6 +9,8 @@ from harness import common as C
 from harness import partlib as L
 
 TRUSTED = [
+    "translators/paths2coq.py (Python ast -> Gallina; fail closed) and its prelude coq/theories/Impl/PyPaths.v (what a break-search loop, %s formatting, rsplit(c, 1)[0], len(set(l)), truth values, isinstance(o, pd.Timestamp) / isoformat / str mean), the template of the _path_to_cats loop skeleton; the regenerated text is also evaluated by the kernel "
+    "against the real functions on sampled inputs on every run",
     "Coq 8.16.1 kernel + coqc (vm_compute only for the closed Example); no native_compute",
     "extraction: ExtrOcamlBasic only, no Extract Constant; ocaml/driver.ml s-expression I/O",
     "Section variables of coq/props/C08.v (external conversions, not modelled): Python float()/repr, "
@@ -20,15 +22,19 @@ TRUSTED = [
     "Python glue: generators, canonical forms of values (harness/partlib.py), metadata block -> model kind",
     "extraction and driver are cross-checked on every run: ~30 of the commands issued are re-evaluated by the Coq kernel "
     "(vm_compute) and must give the output the extracted program printed (obligations extract_agrees_*); thorough tier: coqchk -o",
-    "model domain of int(text): ASCII white space, sign, digits with single underscores (non-ASCII digits not modelled)",
+    "int(text): modelled for every text - ASCII white space (Py_ISSPACE), sign, digits with single underscores; characters of other scripts through "
+    "the tables udigit_zeros (68 runs of Unicode decimal digits) / uspaces of Impl/Partition.v, compared on every run with unicodedata / str.isspace "
+    "of the running interpreter (obligation 'digit table'); UTF-8 decoding of well-formed text",
 ]
 
 STR_POOL = ["a", "b", "1", "2", "-3", "007", "True", "False", "nan", "NaN", "now", "", "é", "日本", "x y", " lead",
             "0.7", ".7", "1e5", "2020-01-01", "1_0", "+1", "a.b", "a-b", "None", "inf", "1.0", "0x10", "t", "T",
             "2020-01-01T00:00:00", "1 days", "A" * 30, "\U0001F600", "-", "null", "0", "1.5", "TRUE", "#", "a%20b",
             "a*b", "[x]", "q?", "a:b", "tab\tx", "~", "a b ", "-inf", "1e400",
+            "\u0663", "\uff11\uff12", "\u0967\u0968\u0969", "1\u0663", "\u00a07", "\u0663_\u0664",      # Unicode decimal digits / white space: int() reads them
             "B", "\u00e9t\u00e9", "e\u0301te\u0301", "x ", "x", "\u212b", "\u00c5", "ss", "\u00df", "I", "\u0131"]      # case / normalisation / whitespace pairs
-ADVERSARIAL = STR_POOL + ["true", " 7 ", "7 ", "\t7", "1__0", "_1", "1_", "--1", "+-1", "1e", "e5", "1.", "-.5e-3",
+ADVERSARIAL = STR_POOL + ["\u0663x", "\u00b2", "\u2167", "\u4e00", "\x1f7", "7\x1f", "\x1c", "7\x7f", "7\u0085", "\u20037\u3000", "-\u0663", "+\uff17",
+                          "\u0663.\u0665", "\U0001d7ce\U0001d7cf", "\u0e51\u0e52", "\u0663\u00a0", "1\u00a02", "\ud7ff", "true", " 7 ", "7 ", "\t7", "1__0", "_1", "1_", "--1", "+-1", "1e", "e5", "1.", "-.5e-3",
                           "Infinity", "-inf", "0b1", "12abc", "2020-13-01", "20200101_120000.000000",
                           "20200101_120000.5", "2020-01-01 01:02:03.5", "2020-01-01T01:02:03.000000005",
                           "1677-01-01", "3000-01-01", "1 day", "5min", "P1D", "9223372036854775808",
@@ -99,6 +105,9 @@ def run(ctx):
         L.coqchk_props(ctx, "C08")
     bad = C.hygiene()
     ctx.obligation("hygiene: no Admitted/Axiom/Parameter/... in coq/", not bad, "; ".join(bad))
+    # tie 1 (translator): path_string, _val_to_num, _strip_path_tail, the directory naming of partition_on_columns regenerated from
+    # the working tree; the int/bool text round trip, the integer guess and "file of a key = rel_path of the model" re-proved on it
+    ctx.gen_paths = L.paths_translator(ctx)
     C.use_shadow()
     pq = C.Pqref()
     try:
@@ -132,6 +141,27 @@ def _run(ctx, pq):
                 "every row_group_offsets form, hive and drill: write, walk the tree, read every file, read the dataset (forked workers). "
                 "Trivial: frames with no row having all keys non-null; distinct = distinct case data")
 
+    # ---------------------------------------------------------------- the Unicode tables of the model of int() vs this interpreter
+    import sys
+    import unicodedata
+    zeros = [c for c in range(sys.maxunicode + 1) if unicodedata.decimal(chr(c), -1) == 0]
+    runs_ok = all(all(unicodedata.decimal(chr(c + k), -1) == k for k in range(10)) for c in zeros) and \
+        sum(1 for c in range(sys.maxunicode + 1) if unicodedata.decimal(chr(c), -1) >= 0) == 10 * len(zeros)
+    spaces = [c for c in range(127, sys.maxunicode + 1) if chr(c).isspace()]
+    mz, ms = pq.call("unicode_tables")
+    ctx.obligation("digit table: udigit_zeros / uspaces of Impl/Partition.v = unicodedata %s of the running interpreter (decimal digits come in runs of ten)"
+                   % unicodedata.unidata_version, runs_ok and list(mz) == zeros and list(ms) == spaces,
+                   "model zeros %r... python zeros %r...; model spaces %r python spaces %r" % (list(mz)[:5], zeros[:5], list(ms), spaces))
+    # int() itself on every decimal digit of every script, alone and mixed, and on every white space (model vs the interpreter)
+    probe = [chr(z + k) for z in zeros for k in (0, 3, 9)] + [chr(z + 1) + chr(zeros[(i + 1) % len(zeros)] + 2) for i, z in enumerate(zeros)] + \
+            [chr(c) + "5" + chr(c) for c in spaces] + [chr(z - 1) for z in zeros] + [chr(z + 10) for z in zeros]
+    outs_p = pq.batch([("parse_int", L.enc(t)) for t in probe])
+    for t, mo in zip(probe, outs_p):
+        try:
+            impl = int(t, base=10)
+        except ValueError:
+            impl = None
+        ctx.correspondence("parse_int ~ int(text, base=10) on the digits and white space of every script", {"text": t}, (mo[0] if mo else None), impl)
     # ---------------------------------------------------------------- A: path_string / "%s" % val
     n_a = 250 if quick else 2500
     cmds, meta, vals_a = [], [], []
@@ -219,9 +249,11 @@ def _run(ctx, pq):
 
     # ---------------------------------------------------------------- D: _path_to_cats / paths_to_cats
     n_d = 200 if quick else 2000
+    d_paths = []
     for i in range(n_d):
-        shape = rng.choice(["hive", "hive", "drill", "drill", "mixed", "malformed"])
-        depth = rng.choice([1, 1, 2, 3])
+        shape = rng.choice(["hive", "hive", "drill", "drill", "mixed", "malformed", "ragged"])
+        depth = rng.choice([1, 1, 2, 3]) if shape != "ragged" else rng.choice([2, 3])
+        ragged_hive = rng.random() < 0.5
         names = rng.sample(["a", "b", "c_1", "dir0", "Key"], depth)
         kinds = [rng.choice(KINDS + [None, None]) for _ in range(depth)]
         pools = []
@@ -241,6 +273,8 @@ def _run(ctx, pq):
                                 (k != "t" or (getattr(v, "tzinfo", None) is not None) == (bk[0] == 7)):
                             break
                     t = util.path_string(v)
+                    if any_time and t.lower() in ("now", "today"):      # the wall clock for a time kind (at any level: drill names are positional)
+                        t = "z"
                     pool.append(t if L.legal_text(t, True) else "z")
             pools.append(pool)
         dirs = []
@@ -248,13 +282,15 @@ def _run(ctx, pq):
             segs = []
             for nm, pool in zip(names, pools):
                 t = rng.choice(pool)
-                hv = shape == "hive" or (shape == "mixed" and rng.random() < 0.5)
+                hv = shape == "hive" or (shape == "mixed" and rng.random() < 0.5) or (shape == "ragged" and ragged_hive)
                 if shape == "malformed" and rng.random() < 0.3:
                     segs.append(nm + "=" + t + "=x")
                 else:
                     segs.append(nm + "=" + t if hv else t)
             if shape == "malformed" and rng.random() < 0.3:
                 segs = segs[:-1]
+            if shape == "ragged" and rng.random() < 0.5:        # directories of different depths: scheme 'other'
+                segs = segs[:rng.randrange(1, len(segs))]
             d = "/".join(segs)
             if d not in dirs:
                 dirs.append(d)
@@ -283,6 +319,7 @@ def _run(ctx, pq):
         paths = [d + "/part.%d.parquet" % rng.randrange(3) for d in dirs]
         if rng.random() < 0.1:
             paths.append("part.9.parquet")
+        d_paths.extend(paths)
         impl_dirs = list(api._strip_path_tail(paths))
         mdirs = [bytes(b).decode() for b in pq.call("strip_tail", [L.enc(p) for p in paths])]
         ctx.correspondence("strip_tail ~ api._strip_path_tail", {"paths": paths}, sorted(set(mdirs)), sorted(impl_dirs))
@@ -302,18 +339,32 @@ def _run(ctx, pq):
         ctx.case(case)
         ctx.correspondence("paths_to_cats ~ api.paths_to_cats", case, model, impl)
 
+    if getattr(ctx, "gen_paths", False):       # the regenerated text itself, evaluated by the kernel, against the real function
+        ok_paths = sorted({p for p in d_paths if L.coq_ascii_ok(p)})
+        L.gen_paths_samples(ctx, [], rng.sample(ok_paths, min(40, len(ok_paths))) + ["", "part.0.parquet", "/x", "a/"])
     # ---------------------------------------------------------------- E: whole datasets
     n_e = 160 if quick else 1500
-    cases = L.load_corpus("C08") + [gen_frame_case(rng, i < (14 if quick else 56), i) for i in range(n_e)]   # corpus, confirmation/regression streams, random
+    cases = L.load_corpus("C08") + [gen_frame_case(rng, i < (16 if quick else 64), i) for i in range(n_e)]   # corpus, confirmation/regression streams, random
     # forked workers (harness.common.pmap): a native crash or a hang while writing/reading is a failing input
     results = L.run_dataset_jobs(ctx, check_dataset, cases, "e", _replayable)
     for case, res in zip(cases, results):
         ctx.case({k: case[k] for k in ("scheme", "on", "rgo", "frame")}, trivial=res.get("trivial", False))
-        for k in ("scheme", "rgo_kind", "n_on"):
-            ctx.count("E." + k, case["dist"][k])
+        for k in ("scheme", "rgo_kind", "n_on", "index", "write_index"):
+            ctx.count("E." + k, case["dist"].get(k, "range" if k == "index" else "None"))
         for kd in case["dist"]["kinds"]:
             ctx.count("E.partition_kind", kd)
         ctx.count("E.rows", "0" if case["n"] == 0 else ("1-5" if case["n"] <= 5 else "6+"))
+    # ---------------------------------------------------------------- F: programs on one handle
+    n_f = 48 if quick else 400
+    hcases = [gen_handle_case(rng, i) for i in range(n_f)]
+    hres = L.run_dataset_jobs(ctx, check_handle_prog, hcases, "f", _replayable)
+    for case, res in zip(hcases, hres):
+        ctx.case({k: case[k] for k in ("scheme", "on", "prog", "frames")}, trivial=res.get("trivial", False))
+        ctx.count("F.scheme", case["scheme"])
+        for o in case["dist"]["ops"]:
+            ctx.count("F.op", o)
+        for kd in case["dist"]["kinds"]:
+            ctx.count("F.partition_kind", kd)
     # ---------------------------------------------------------------- extraction vs kernel on a sample of the commands above
     fixed = [("write_model", True, [b"k", b"n"],
               [[[[[[2, b"a"]], [[0, 5]]], 0], [[[[2, b"b"]], []], 1]], [[[[[2, b"a"]], [[0, -7]]], 2], [[[[2, b"a"]], [[0, 5]]], 3]]]),
@@ -408,6 +459,25 @@ def gen_column(rng, kind, n, drill):
         if nulls and n:
             a[np.array([rng.random() < 0.25 for _ in range(n)], dtype=bool)] = np.datetime64("NaT")
         return pd.Series(a).dt.tz_localize("UTC").dt.tz_convert(rng.choice(["UTC", "Europe/Berlin", "America/New_York", "Asia/Kolkata"]))
+    if kind == "onekey":      # one distinct value, NULLs around it, a tail of NULLs only
+        sub = rng.choice(["str", "float", "time", "intx", "cat", "boolx"])
+        one = {"str": "a", "float": 0.5, "time": np.datetime64("2020-01-01T00:00:00", "ns"), "intx": 7, "cat": "zz", "boolx": True}[sub]
+        mask = [(rng.random() < 0.5 and r < max(1, n - 3)) for r in range(n)]
+        if n and not any(mask):
+            mask[0] = True
+        vals = [one if m else None for m in mask]
+        if sub == "str":
+            return pd.Series(np.array(vals + [None], dtype=object)[:-1])
+        if sub == "float":
+            return pd.Series(np.array([float("nan") if v is None else v for v in vals], dtype="float64"))
+        if sub == "time":
+            a = np.array([one] * n, dtype="datetime64[ns]")
+            if n:
+                a[np.array([not m for m in mask], dtype=bool)] = np.datetime64("NaT")
+            return pd.Series(a)
+        if sub == "cat":
+            return pd.Series(pd.Categorical.from_codes([1 if m else -1 for m in mask], categories=["a", "zz", "q"]))
+        return pd.Series(pd.array(vals, dtype="Int64" if sub == "intx" else "boolean"))
     if kind == "allnull":
         return pd.Series(np.array([None if (r // 2) % 2 == 0 else "z" for r in range(n)], dtype=object))
     if kind == "catnum":       # categorical whose labels are numbers, booleans or timestamps (label type recorded since fix)
@@ -420,6 +490,59 @@ def gen_column(rng, kind, n, drill):
     raise ValueError(kind)
 
 
+INDEX_KINDS = ["dup", "concat", "nonmono", "str", "multi", "same", "float", "time"]
+
+
+def gen_index(rng, n, force=False):
+    """row labels of a generated frame as data: {'kind', 'values' (rows; lists for a MultiIndex), 'names'}"""
+    kind = rng.choice(INDEX_KINDS) if (force or rng.random() < 0.45) else "range"
+    if kind == "range" or n == 0:
+        return {"kind": "range"}
+    if kind == "dup":                   # few labels, many repeats (df.sample(replace=True), a non-unique key as index)
+        vals = [rng.randrange(max(1, n // 2)) for _ in range(n)]
+    elif kind == "concat":              # pd.concat([a, b]) without ignore_index
+        h = rng.randrange(1, n) if n > 1 else 1
+        vals = list(range(h)) + list(range(n - h))
+    elif kind == "nonmono":             # unique but shuffled, not starting at 0
+        vals = [x + rng.choice([0, 5]) for x in rng.sample(range(n), n)]
+    elif kind == "str":
+        pool = ["a", "b", "c", "", "é", "0"]
+        vals = [rng.choice(pool) for _ in range(n)]
+    elif kind == "multi":               # repeated tuples
+        vals = [[rng.choice(["x", "y"]), rng.randrange(2)] for _ in range(n)]
+    elif kind == "same":
+        vals = [7] * n
+    elif kind == "float":
+        vals = [rng.choice([0.5, 1.0, 0.5, -2.0]) for _ in range(n)]
+    else:                               # time: seconds since the epoch, repeated
+        vals = [rng.choice([0, 86400, 86400, 1577836800]) for _ in range(n)]
+    nlev = 2 if kind == "multi" else 1
+    # (a MultiIndex with an unnamed level cannot be written at all, partitioned or not: outside this property)
+    names = [rng.choice([None, None, "idx", "L0"])] if nlev == 1 else rng.choice([["L0", "L1"], ["idx", "L1"]])
+    return {"kind": kind, "values": vals, "names": names}
+
+
+def build_index(spec, n):
+    import pandas as pd
+    if not spec or spec.get("kind", "range") == "range":
+        return pd.RangeIndex(n)
+    vals, names = spec["values"], spec.get("names") or [None]
+    if spec["kind"] == "multi":
+        return pd.MultiIndex.from_tuples([tuple(v) for v in vals], names=names)
+    if spec["kind"] == "time":
+        return pd.Index(pd.to_datetime(vals, unit="s"), name=names[0])
+    return pd.Index(vals, name=names[0])
+
+
+def index_labels(index):
+    """canonical row labels of an index, one list per row"""
+    out = []
+    for lab in index.tolist():
+        lab = lab if isinstance(lab, tuple) else (lab,)
+        out.append([L.canon(x) for x in lab])
+    return out
+
+
 def gen_frame_case(rng, confirm, i):
     import numpy as np
     import pandas as pd
@@ -428,7 +551,7 @@ def gen_frame_case(rng, confirm, i):
     n_on = rng.choice([1, 1, 2, 2, 3])
     kinds = [rng.choice(["int", "int", "bool", "float", "time", "str", "strnum" if scheme == "hive" else "str", "cat",
                          "intx", "boolx", "floatx", "strx", "timetz", "pct", "catnumtxt", "intshare"]) for _ in range(n_on)]
-    which = i % 7 if confirm else -1
+    which = i % 8 if confirm else -1
     if confirm:
         if which == 0:
             scheme, kinds[0] = "hive", "catnum"
@@ -440,6 +563,8 @@ def gen_frame_case(rng, confirm, i):
             scheme, n_on, kinds = "hive", 2, rng.choice([["catnumtxt", "intshare"], ["intshare", "catnumtxt"]])
         elif which == 6:        # percent sequences and friends in text keys
             kinds[0] = "pct"
+        elif which == 7:        # ONE distinct key + NULL keys (C08_single_key_with_nulls), chunks of NULL keys only (C08_all_null_chunk_writes_nothing)
+            kinds[0] = "onekey"
         elif which == 2:
             scheme, n_on, kinds = "drill", 2, [rng.choice(["str", "int"]), rng.choice(["bool", "time", "int"])]
         else:       # regression stream of fix d63c479: categorical key next to a key column that is all NULL in a chunk
@@ -460,7 +585,7 @@ def gen_frame_case(rng, confirm, i):
     rng.shuffle(order)
     df = pd.DataFrame({c: cols[c] for c in order})
     rk = rng.choice(["none", "int", "int", "list"])
-    if which == 3:
+    if which in (3, 7):
         rk = "int"
     if rk == "none" or n == 0:
         rgo, rk = None, "none"
@@ -469,8 +594,14 @@ def gen_frame_case(rng, confirm, i):
     else:
         cuts = sorted(set(rng.sample(range(1, n), min(n - 1, rng.choice([1, 2, 3]))))) if n > 1 else []
         rgo = [0] + cuts
+    # the frame's ROW LABELS: the writer groups and splits by position, never by label, so duplicate / non-monotonic /
+    # text / tuple labels, stored (write_index True/None) or not (False), must not matter for where a row goes
+    index = gen_index(rng, n, force=(i % 5 == 3)) if which in (-1, 6) else {"kind": "range"}
+    write_index = rng.choice([None, None, True, False, False]) if index["kind"] != "range" else rng.choice([None, None, None, True, False])
     return {"scheme": scheme, "on": names, "rgo": rgo, "n": n, "frame": L.frame_to_data(df), "confirm": confirm,
-            "dist": {"scheme": scheme, "rgo_kind": rk, "n_on": n_on, "kinds": kinds}}
+            "index": index, "write_index": write_index,
+            "dist": {"scheme": scheme, "rgo_kind": rk, "n_on": n_on, "kinds": kinds, "index": index["kind"],
+                     "write_index": str(write_index)}}
 
 
 def check_dataset(case, root, pq, ctx=None, verbose=False):
@@ -484,6 +615,11 @@ def check_dataset(case, root, pq, ctx=None, verbose=False):
     hive = scheme == "hive"
     n = len(df)
     problems, cls_extra = [], {}
+    ispec, write_index = case.get("index") or {"kind": "range"}, case.get("write_index")
+    if ispec.get("kind", "range") != "range":
+        df.index = build_index(ispec, n)
+    index_stored = bool(write_index) or (write_index is None and ispec.get("kind", "range") != "range")
+    labels_in = index_labels(df.index)
 
     def say(*a):
         if verbose:
@@ -502,7 +638,7 @@ def check_dataset(case, root, pq, ctx=None, verbose=False):
     kinds = {c: L.kind_of_dtype(df[c].dtype) for c in on}
     label_kind = {c: ("s" if not is_cat[c] else L.canon(df[c].cat.categories[0])[0]) for c in on}
     tz_aware = any(isinstance(df[c].dtype, pd.DatetimeTZDtype) for c in on)
-    cls = {"scheme": scheme, "tz_aware": tz_aware, "partition_kinds": sorted({("cat:" + label_kind[c]) if is_cat[c] else kinds[c][1] for c in on})}
+    cls = {"scheme": scheme, "tz_aware": tz_aware, "index": ispec.get("kind", "range"), "write_index": str(write_index), "partition_kinds": sorted({("cat:" + label_kind[c]) if is_cat[c] else kinds[c][1] for c in on})}
     texts = {}
     for r in alive:
         texts[r] = [L.key_text(v, hive) for v in keyvals[r]]
@@ -517,7 +653,7 @@ def check_dataset(case, root, pq, ctx=None, verbose=False):
         cls["dirN_name_collision"] = any(c == "dir%d" % i2 for j, c in enumerate(on) for i2 in range(len(on)) if i2 != j)
 
     try:
-        write(root, df, file_scheme=scheme, partition_on=on, row_group_offsets=rgo)
+        write(root, df, file_scheme=scheme, partition_on=on, row_group_offsets=rgo, write_index=write_index)
     except Exception as e:      # noqa
         # the statement is about reads of what was written; a refused write is reported as such
         problems.append("write raised %s: %s" % (type(e).__name__, e))
@@ -611,8 +747,18 @@ def check_dataset(case, root, pq, ctx=None, verbose=False):
                     problems.append("ParquetFile.cats[%r] = %s, keys written %s" % (c, gotc[:6], wantc[:6]))
                     cls_extra["mismatch"] = "value"
         by_id = {}
+        labels_out = None
+        if index_stored:
+            try:
+                labels_out = index_labels(out.index)
+            except Exception as e:      # noqa
+                problems.append("row labels of the frame read back: %s: %s" % (type(e).__name__, e))
         for pos, rid in enumerate(ids):
             row = {}
+            if labels_out is not None and 0 <= rid < n and labels_out[pos] != labels_in[rid]:
+                problems.append("row %d: stored row label %r read back as %r" % (rid, labels_in[rid], labels_out[pos]))
+                cls_extra["mismatch"] = "row-label"
+                labels_out = None
             for c in ("p", "q"):
                 v = out[c].iloc[pos]
                 w = df[c].iloc[rid]
@@ -640,7 +786,7 @@ def check_dataset(case, root, pq, ctx=None, verbose=False):
                             g2, t2 = got_cells[c2], texts[rid][j2]
                             gm2 = L.from_model(pq.call("val_to_num", L.enc(t2), [L.oracle_entry(t2)]))
                             okc = okc and (g2 == ["s", t2] or g2 == gm2 or g2 == by_id[rid][c2] or
-                                           (g2[0] in "bif" and gm2[0] in "bif" and float(_num(g2)) == float(_num(gm2))))
+                                           (g2[0] in "bif" and gm2[0] in "bif" and _num_eq(g2, gm2)))
                         if okc:
                             continue
                     if got_cells != by_id.get(rid):
@@ -683,7 +829,7 @@ def check_dataset(case, root, pq, ctx=None, verbose=False):
                 else:
                     gm = L.from_model(pq.call("val_to_num", L.enc(texts[rid][j]), [L.oracle_entry(texts[rid][j])]))
                     ok = g == want or g == ["s", texts[rid][j]] or g == gm or \
-                        (g[0] in "bif" and gm[0] in "bif" and float(_num(g)) == float(_num(gm)))
+                        (g[0] in "bif" and gm[0] in "bif" and _num_eq(g, gm))
                     if not ok:
                         problems.append("row %d level %d: read %r, key text %r (written %r)" % (rid, j, g, texts[rid][j], want))
                         cls_extra["mismatch"] = "value"
@@ -747,12 +893,302 @@ def check_dataset(case, root, pq, ctx=None, verbose=False):
     return {"problems": problems, "trivial": not alive, "cls": dict(cls, **cls_extra)}
 
 
+
+# -------------------------------------------------------------------------------------------------- stream F
+# read - edit-through-the-handle - read sequences on ONE ParquetFile handle of a partitioned dataset.  Everything a handle
+# shows of the partition columns (to_pandas, cats, iter_row_groups, slices, count) is a function of its current row groups:
+# after every edit made through the handle it must be what a freshly opened handle shows, and what the rows written say.
+H_POOLS = {
+    "int": [8, 1, 2, 3, 4, 5, 6, -7, 100, 0],
+    "str": ["b", "a", "01", "c", "d", "1", "e", "f", "g", "h", "é", "x y"],
+    "bool": [True, False],
+    "float": [0.5, 1.0, -2.25, 0.1, 3.0, 1e22, 2.5e-10],
+    "time": [1577836800, 0, 1577836800 + 3723, 86400, 4102444800, 946684799],
+    "cat": ["b", "a", "zz", "c", "é", "d", "x y", "q"],
+}
+
+
+def _h_column(kind, vals):
+    import numpy as np
+    import pandas as pd
+    if kind == "int":
+        return pd.Series(np.array(vals, dtype="int64"))
+    if kind == "bool":
+        return pd.Series(np.array(vals, dtype=bool))
+    if kind == "float":
+        return pd.Series(np.array([float("nan") if v is None else v for v in vals], dtype="float64"))
+    if kind == "time":
+        a = np.array([0 if v is None else v for v in vals], dtype="int64").astype("datetime64[s]").astype("datetime64[ns]")
+        if len(vals):
+            a[np.array([v is None for v in vals], dtype=bool)] = np.datetime64("NaT")
+        return pd.Series(a)
+    if kind == "cat":
+        cats = H_POOLS["cat"]
+        return pd.Series(pd.Categorical.from_codes([-1 if v is None else cats.index(v) for v in vals], categories=cats))
+    return pd.Series(np.array(list(vals) + [None], dtype=object)[:-1])
+
+
+def gen_handle_case(rng, i):
+    import numpy as np
+    import pandas as pd
+    scheme = rng.choice(["hive", "hive", "drill"])
+    n_on = rng.choice([1, 1, 2])
+    kinds = [rng.choice(["int", "int", "str", "str", "bool", "float", "time", "cat"]) for _ in range(n_on)]
+    # a drill dataset knows its levels only as dir0, dir1, ...: frames appended to it must call them so
+    names = rng.sample(["k", "part", "year", "K", "a.b"], n_on) if scheme == "hive" else ["dir%d" % j for j in range(n_on)]
+    pools = []
+    for kd in kinds:
+        pool = list(H_POOLS[kd])
+        if rng.random() < 0.6 and kd != "cat":
+            rng.shuffle(pool)
+        pools.append(pool)
+    n_batches = rng.choice([2, 2, 3, 4])
+    frames, idx_specs = [], []
+    for b in range(n_batches):
+        n = rng.choice([2, 3, 5, 8, 12]) if b else rng.choice([3, 5, 8])
+        cols = {}
+        for nm, kd, pool in zip(names, kinds, pools):
+            # later batches bring partition values not seen before (and repeat old ones)
+            seen_upto = min(len(pool), 2 + (2 + (i % 3)) * b)
+            nullable = kd not in ("int", "bool") and rng.random() < 0.25
+            vals = [None if (nullable and rng.random() < 0.2) else rng.choice(pool[:seen_upto]) for _ in range(n)]
+            if b and seen_upto > 2 and n >= 2:
+                vals[0] = pool[seen_upto - 1]           # at least one new value
+            cols[nm] = _h_column(kd, vals)
+        cols["id"] = pd.Series(np.arange(100 * b, 100 * b + n, dtype="int64"))
+        cols["p"] = pd.Series(np.array([rng.choice([0.5, float("nan"), -1.0]) for _ in range(n)], dtype="float64"))
+        cols["q"] = pd.Series(np.array([rng.choice(["u", "v", "ü", ""]) for _ in range(n)] + [None], dtype=object)[:-1])
+        order = list(cols)
+        if b == 0:
+            rng.shuffle(order)
+            first_order = order
+        frames.append(L.frame_to_data(pd.DataFrame({c: cols[c] for c in first_order})))
+        idx_specs.append(gen_index(rng, n))
+    obs = ["read", "read", "cats", "iter", "slice", "count", "columns"]
+    prog = [[rng.choice(["read", "read", "cats", "iter"])]] if rng.random() < 0.85 else []
+    for b in range(1, n_batches):
+        if rng.random() < 0.3:
+            prog.append(["remove", rng.choice(["dir", "dir", "rg", "last"]), rng.randrange(1000)])
+            prog.append([rng.choice(obs)])
+        n = len(frames[b]["columns"][0][1].get("values", frames[b]["columns"][0][1].get("codes", [])))
+        prog.append(["append", b, rng.choice([None, None, 1, 2, 4, [0, max(1, n // 2)]]), rng.choice(["handle", "handle", "write"])])
+        for _ in range(rng.choice([1, 2, 2])):
+            prog.append([rng.choice(obs)])
+    if rng.random() < 0.5:
+        prog.append(["remove", rng.choice(["dir", "rg", "first"]), rng.randrange(1000)])
+        prog.append(["read"])
+        prog.append([rng.choice(obs)])
+    return {"scheme": scheme, "on": names, "kinds": kinds, "frames": frames, "indexes": idx_specs, "prog": prog,
+            "rgo": rng.choice([None, 2, 3]),
+            "dist": {"scheme": scheme, "n_on": n_on, "kinds": kinds, "ops": [op[0] if op[0] != "append" else "append:" + op[3] for op in prog]}}
+
+
+def _drill_cell_ok(pq, g, t, want=None):
+    gm = L.from_model(pq.call("val_to_num", L.enc(t), [L.oracle_entry(t)]))
+    return g == want or g == ["s", t] or g == gm or (g[0] in "bif" and gm[0] in "bif" and _num_eq(g, gm))
+
+
+def check_handle_prog(case, root, pq, ctx=None, verbose=False):
+    """Run the program of `case` on ONE handle; after every step compare what the handle shows with the rows written so far
+    (minus the removed ones), with a freshly opened handle, and with read_model on the handle's row-group paths."""
+    import pandas as pd
+    from fastparquet import write, ParquetFile, api
+    on, scheme = case["on"], case["scheme"]
+    hive = scheme == "hive"
+    frames = [L.frame_from_data(f) for f in case["frames"]]
+    for f, spec in zip(frames, case.get("indexes") or []):
+        if spec and spec.get("kind", "range") != "range":
+            f.index = build_index(spec, len(f))
+    pcols = on if hive else ["dir%d" % j for j in range(len(on))]
+    is_cat = {c: isinstance(frames[0][c].dtype, pd.CategoricalDtype) for c in on}
+    cls = {"stream": "handle", "scheme": scheme, "partition_kinds": sorted(set(case.get("kinds", [])))}
+    problems = []
+    live = {}               # id -> [key values] of the rows that must be in the dataset now
+    payload = {}
+
+    def say(*a):
+        if verbose:
+            print(*a)
+
+    def admit(f):
+        for r in range(len(f)):
+            kv = [None if L.is_null(f[c].iloc[r]) else f[c].iloc[r] for c in on]
+            if all(v is not None for v in kv):
+                rid = int(f["id"].iloc[r])
+                live[rid] = kv
+                payload[rid] = (f["p"].iloc[r], f["q"].iloc[r])
+
+    def cells_by_id(frame, what):
+        out = {}
+        if "id" not in frame.columns:
+            problems.append("%s: no id column (columns %r)" % (what, list(frame.columns)))
+            return out
+        for pos in range(len(frame)):
+            rid = int(frame["id"].iloc[pos])
+            if rid in out:
+                problems.append("%s: row %d returned twice" % (what, rid))
+            out[rid] = {c: L.canon(frame[c].iloc[pos]) for c in pcols if c in frame.columns}
+            if "p" in frame.columns and rid in payload:
+                v, w = frame["p"].iloc[pos], payload[rid][0]
+                if not ((L.is_null(v) and L.is_null(w)) or v == w):
+                    problems.append("%s: row %d payload p %r, written %r" % (what, rid, v, w))
+        return out
+
+    def check_cells(cells, what, want_ids=None, cols=None):
+        """cells: {id: {partition column: canonical cell}} as some read returned them"""
+        want_ids = sorted(live) if want_ids is None else want_ids
+        if sorted(cells) != want_ids:
+            problems.append("%s: row ids %r, rows written and not removed %r" % (what, sorted(cells)[:24], want_ids[:24]))
+            return
+        for rid in want_ids:
+            for j, c in enumerate(pcols):
+                if cols is not None and c not in cols:
+                    continue
+                g = cells[rid].get(c)
+                if g is None:
+                    problems.append("%s: partition column %r missing" % (what, c))
+                    return
+                want = L.canon(live[rid][j])
+                if hive:
+                    ok = g == want
+                else:
+                    ok = any(_drill_cell_ok(pq, g, t, want) for t in L.key_texts(live[rid][j], False))
+                if not ok:
+                    problems.append("%s: row %d column %s read %r, written %r" % (what, rid, c, g, want))
+                    return
+
+    def rg_path(rg):
+        return rg.columns[0].file_path
+
+    def file_ids(path):
+        return [int(x) for x in ParquetFile(os.path.join(root, path)).to_pandas(columns=["id"])["id"]]
+
+    step, last_edit = -1, "write"
+    try:
+        write(root, frames[0], file_scheme=scheme, partition_on=on, row_group_offsets=case.get("rgo"), write_index=False)
+        admit(frames[0])
+        pf = ParquetFile(root)
+        for step, op in enumerate(case["prog"]):
+            what = "step %d %s (after %s)" % (step, op[0], last_edit)
+            say(what, op)
+            if op[0] == "append":
+                f = frames[op[1]]
+                if op[3] == "handle":
+                    pf.write_row_groups(f, row_group_offsets=op[2])
+                else:       # write(append=True) uses a private handle: the one under test must be told (documented: re-open)
+                    write(root, f, file_scheme=scheme, partition_on=on, row_group_offsets=op[2], append=True, write_index=False)
+                    pf = ParquetFile(root)
+                admit(f)
+                last_edit = "append:" + op[3]
+            elif op[0] == "remove":
+                rgs = list(pf.row_groups)
+                if not rgs:
+                    continue
+                if op[1] == "dir":      # every row group of one partition directory: its label disappears
+                    dirs = sorted({rg_path(rg).rsplit("/", 1)[0] for rg in rgs})
+                    d = dirs[op[2] % len(dirs)]
+                    sel = [rg for rg in rgs if rg_path(rg).rsplit("/", 1)[0] == d]
+                elif op[1] == "rg":
+                    sel = [rgs[op[2] % len(rgs)]]
+                elif op[1] == "first":
+                    sel = [rgs[0]]
+                else:
+                    sel = [rgs[-1]]
+                if len(sel) == len(rgs):
+                    sel = sel[:-1]      # an emptied dataset is C09's business
+                if not sel:
+                    continue
+                gone = [rid for rg in sel for rid in file_ids(rg_path(rg))]
+                pf.remove_row_groups(sel)
+                for rid in gone:
+                    live.pop(rid, None)
+                last_edit = "remove:" + op[1]
+            else:
+                fresh = ParquetFile(root)
+                if op[0] in ("read", "columns"):
+                    kw = {} if op[0] == "read" else {"columns": [pcols[0], "id"]}
+                    cols = None if op[0] == "read" else [pcols[0]]
+                    same = cells_by_id(pf.to_pandas(**kw), what + ": handle.to_pandas()")
+                    check_cells(same, what + ": handle.to_pandas(%s)" % (kw or ""), cols=cols)
+                    fr = cells_by_id(fresh.to_pandas(**kw), what + ": fresh ParquetFile(dir).to_pandas()")
+                    check_cells(fr, what + ": fresh ParquetFile(dir).to_pandas(%s)" % (kw or ""), cols=cols)
+                    if not problems and same != fr:
+                        bad = [r for r in same if same[r] != fr.get(r)][:3]
+                        problems.append("%s: the handle shows %r, a fresh handle %r" % (what, {r: same[r] for r in bad}, {r: fr.get(r) for r in bad}))
+                    if ctx is not None and op[0] == "read" and not problems:
+                        paths = [rg_path(rg) for rg in pf.row_groups]
+                        fids = {p: file_ids(p) for p in set(paths)}
+                        pm = [[L.enc(k), L.kind_of_meta(v)] for k, v in pf.partition_meta.items()]
+                        dirs = list(api._strip_path_tail(paths)) if paths else []
+                        table = L.oracle_table([t for p in paths for seg in p.split("/") for t in seg.split("=")])
+                        mo = pq.call("read_model", pm, [[L.enc(p), fids[p]] for p in paths], [L.enc(d) for d in dirs], table)
+                        model = "raises" if not mo else [bytes(mo[0][0]).decode(), sorted(
+                            [rid, sorted([bytes(k).decode(), L.from_model(v)] for k, v in cells)] for cells, rid in mo[0][1])]
+                        impl = [pf.file_scheme, sorted([rid, sorted([c, v] for c, v in same[rid].items())] for rid in same)]
+                        if not hive and model != "raises":
+                            model = [model[0], [[rid, [[c, L.num_norm(v)] for c, v in cells]] for rid, cells in model[1]]]
+                            impl = [impl[0], [[rid, [[c, L.num_norm(v)] for c, v in cells]] for rid, cells in impl[1]]]
+                        ctx.correspondence("read_model ~ handle.to_pandas() after edits through the handle", _replayable(case), model, impl)
+                elif op[0] == "cats":
+                    for j, c in enumerate(pcols):
+                        hc = sorted({json.dumps(L.canon(v)) for v in pf.cats.get(c, [])})
+                        fc = sorted({json.dumps(L.canon(v)) for v in fresh.cats.get(c, [])})
+                        if hc != fc:
+                            problems.append("%s: handle.cats[%r] = %s, fresh handle %s" % (what, c, hc[:8], fc[:8]))
+                        wantc = sorted({json.dumps(L.canon(kv[j])) for kv in live.values()})
+                        if hive and live and fc != wantc:
+                            problems.append("%s: ParquetFile.cats[%r] = %s, keys written %s" % (what, c, fc[:8], wantc[:8]))
+                    if list(pf.cats) != list(fresh.cats):
+                        problems.append("%s: handle.cats has columns %r, fresh handle %r" % (what, list(pf.cats), list(fresh.cats)))
+                elif op[0] == "iter":
+                    parts = list(pf.iter_row_groups())
+                    cells = cells_by_id(pd.concat(parts) if parts else pf.to_pandas(), what + ": iter_row_groups()")
+                    if hive:
+                        check_cells(cells, what + ": handle.iter_row_groups()")
+                    elif sorted(cells) != sorted(live):
+                        problems.append("%s: iter_row_groups() row ids %r, expected %r" % (what, sorted(cells)[:24], sorted(live)[:24]))
+                elif op[0] == "slice":
+                    if len(pf.row_groups) > 1:
+                        sub = pf[1:]
+                        want_ids = sorted(rid for rg in sub.row_groups for rid in file_ids(rg_path(rg)))
+                        cells = cells_by_id(sub.to_pandas(), what + ": handle[1:].to_pandas()")
+                        if hive:
+                            check_cells(cells, what + ": handle[1:].to_pandas()", want_ids=want_ids)
+                        elif sorted(cells) != want_ids:
+                            problems.append("%s: handle[1:] row ids %r, expected %r" % (what, sorted(cells)[:24], want_ids[:24]))
+                elif op[0] == "count":
+                    if pf.count() != len(live) or int(pf.fmd.num_rows) != len(live) or fresh.count() != len(live):
+                        problems.append("%s: count() %r / num_rows %r / fresh count() %r, rows %d" % (
+                            what, pf.count(), pf.fmd.num_rows, fresh.count(), len(live)))
+            if problems:
+                break
+    except Exception as e:      # noqa
+        import traceback
+        problems.append("step %d %r (after %s) raised %s: %s" % (step, case["prog"][step] if 0 <= step < len(case["prog"]) else "write", last_edit,
+                                                             type(e).__name__, str(e)[:200]))
+        say(traceback.format_exc())
+        cls["stage"] = "raises"
+    if problems and ctx is not None:
+        opk = case["prog"][step][0] if 0 <= step < len(case["prog"]) else "write"
+        ctx.fail(dict(cls, op=opk, after=last_edit.split(":")[0]), _replayable(case), "; ".join(problems[:4]))
+    for p in problems[:10]:
+        say("PROBLEM:", p)
+    return {"problems": problems, "trivial": not live, "cls": cls}
+
+
 def _num(c):
     return {"b": int, "i": int, "f": float}[c[0]](c[1])
 
 
+def _num_eq(a, b):
+    """numerically equal EXACTLY (Python compares int with float without rounding): 2**63 - 1 is not 9.223372036854775808e18"""
+    return _num(a) == _num(b)
+
+
 def _replayable(case):
-    return {k: case[k] for k in ("scheme", "on", "rgo", "n", "frame")}
+    if "prog" in case:
+        return {k: case[k] for k in ("scheme", "on", "kinds", "frames", "indexes", "prog", "rgo") if k in case}
+    return {k: case[k] for k in ("scheme", "on", "rgo", "n", "frame", "index", "write_index") if k in case}
 
 
 def replay(rep):
@@ -761,10 +1197,12 @@ def replay(rep):
         first = (rep.get("no_longer_checks") or [{}])[0]
         print(json.dumps(rep, indent=1, default=repr)[:5000])
         case = first.get("detail", {}).get("case") if isinstance(first.get("detail"), dict) else None
-        if not (isinstance(case, dict) and "frame" in case):
+        if not (isinstance(case, dict) and ("frame" in case or "prog" in case)):
             return 1
     else:
         case = rep["case"]
+    if "prog" in case:
+        return _replay_handle(case)
     if "frame" not in case:
         print(json.dumps(rep, indent=1, default=repr)[:5000])
         return 1
@@ -773,7 +1211,9 @@ def replay(rep):
     try:
         print("frame:")
         print(L.frame_from_data(case["frame"]).to_string(max_rows=40))
-        print("write(file_scheme=%r, partition_on=%r, row_group_offsets=%r)" % (case["scheme"], case["on"], case["rgo"]))
+        if case.get("index") and case["index"].get("kind", "range") != "range":
+            print("row labels (%s, names %r): %r" % (case["index"]["kind"], case["index"].get("names"), case["index"]["values"]))
+        print("write(file_scheme=%r, partition_on=%r, row_group_offsets=%r, write_index=%r)" % (case["scheme"], case["on"], case["rgo"], case.get("write_index")))
         # in a forked worker: a native crash of the real code is an observation of the replay, not its end
         out = C.pmap(lambda c: check_dataset(c, os.path.join(tmp, "ds"), L.worker_pq(), None, verbose=True)["problems"],
                      [case], nproc=1, job_timeout=300)[0]
@@ -784,4 +1224,23 @@ def replay(rep):
         return 1 if out else 0
     finally:
         pq.close()
+        shutil.rmtree(tmp, ignore_errors=True)
+
+
+def _replay_handle(case):
+    tmp = tempfile.mkdtemp(prefix="verif-C08-replay-", dir="/tmp")
+    try:
+        for b, f in enumerate(case["frames"]):
+            print("frame %d%s:" % (b, "" if not (case.get("indexes") or [None] * 9)[b] else "  (row labels: %s)" % case["indexes"][b].get("kind")))
+            print(L.frame_from_data(f).to_string(max_rows=30))
+        print("write(dir, frame 0, file_scheme=%r, partition_on=%r, row_group_offsets=%r, write_index=False); pf = ParquetFile(dir); program on pf: %r"
+              % (case["scheme"], case["on"], case.get("rgo"), case["prog"]))
+        out = C.pmap(lambda c: check_handle_prog(c, os.path.join(tmp, "ds"), L.worker_pq(), None, verbose=True)["problems"],
+                     [case], nproc=1, job_timeout=300)[0]
+        if isinstance(out, dict) and "__crashed__" in out:
+            print("PROPERTY FAILS: the real code did not survive this program:", out["__crashed__"], out.get("tb", ""))
+            return 1
+        print("PROPERTY FAILS" if out else "property holds on this program")
+        return 1 if out else 0
+    finally:
         shutil.rmtree(tmp, ignore_errors=True)
